@@ -448,8 +448,6 @@ pub fn run_case(case: &Case, reference: Option<&RefProgram>, want_log: bool) -> 
         .stack_size(32 << 20)
         .spawn(move || {
             crate::seams::set_thread_entropy(Some(entropy));
-            // polling loops of the code under test (try_wait + sleep) cost no real time
-            crate::seams::set_sleep_hook(Some(Box::new(|_ns| {})));
             let backend = Arc::new(C19Backend {
                 plan: case.proc.clone(),
                 later: case.later.clone(),
@@ -459,6 +457,30 @@ pub fn run_case(case: &Case, reference: Option<&RefProgram>, want_log: bool) -> 
                 points: AtomicU64::new(0),
             });
             verif_hooks::install(Some(backend.clone() as Arc<dyn Backend>));
+            {
+                // Polling loops of the code under test (try_wait + sleep) cost no real time: a
+                // sleep advances the virtual clock of the formatter processes instead.
+                let backend = backend.clone();
+                crate::seams::set_sleep_hook(Some(Box::new(move |ns| {
+                    let children: Vec<Arc<SimChild>> = backend.children.lock().unwrap().clone();
+                    for child in children {
+                        child.parent_slept(ns);
+                    }
+                    // Helper threads of the code under test run in real time: a poller that
+                    // sleeps virtually must still give them a moment, or every poll loop would
+                    // run out before they have moved at all.
+                    if crate::seams::threads_created_by_current_thread() > 0 {
+                        let real = std::time::Duration::from_nanos(ns.min(200_000));
+                        let ts = libc::timespec {
+                            tv_sec: 0,
+                            tv_nsec: real.as_nanos() as _,
+                        };
+                        unsafe {
+                            libc::syscall(libc::SYS_nanosleep, &ts, std::ptr::null_mut::<libc::timespec>());
+                        }
+                    }
+                })));
+            }
             let source = case.job.shader.source();
             let mut options = case.job.options;
             options.rustfmt = true;
@@ -467,6 +489,7 @@ pub fn run_case(case: &Case, reference: Option<&RefProgram>, want_log: bool) -> 
                 corpus::run_job(&source, case.job.include_path.as_deref(), options)
             }));
             verif_hooks::install(None);
+            crate::seams::set_sleep_hook(None);
             let location = crate::take_panic_location();
             let reports: Vec<ProcReport> = backend
                 .children
@@ -721,6 +744,11 @@ pub fn worker_main(args: &[String]) -> i32 {
 // Plan generation
 
 const CAPS: &[usize] = &[1, 64, 4096, 65536, 1 << 20];
+/// A module whose bindings exceed a megabyte (with the bytemuck layout assertions).
+pub const HUGE: ShaderRef = ShaderRef::Bulk {
+    structs: 48,
+    members: 200,
+};
 const CHUNKS: &[usize] = &[1, 7, 512, 4096, 65536];
 const EXIT_CODES: &[i32] = &[1, 2, 101, 127, 255];
 const SIGNALS: &[i32] = &[libc::SIGKILL, libc::SIGTERM, libc::SIGSEGV, libc::SIGABRT, libc::SIGPIPE];
@@ -1049,6 +1077,32 @@ pub fn systematic_cases() -> Vec<Case> {
         (3, vec![1, 5, 2], None),            // interleaved
     ];
     let mut out = Vec::new();
+    // One module whose bindings exceed a megabyte: internal size limits of the code under test
+    // (read caps, length fields, sanity limits) sit well above the 64 KiB of a pipe buffer.
+    for (script, cap) in [
+        (vec![Op::ReadToEof, Op::Format, Op::Flush, Op::ExitAuto], 65536usize),
+        (vec![Op::ReadToEof, Op::Format, Op::Flush, Op::ExitAuto], 1 << 20),
+        (vec![Op::ReadToEof, Op::EmitRef(950), Op::Flush, Op::Kill(libc::SIGKILL)], 65536),
+    ] {
+        let mut options = Opts::plain();
+        options.rustfmt = true;
+        options.bytemuck_host = true;
+        out.push(Case {
+            later: vec![],
+            job: Job {
+                shader: HUGE,
+                include_path: None,
+                options,
+            },
+            proc: ProcPlan {
+                script,
+                stdin_cap: cap,
+                stdout_cap: cap,
+                chunk: 65536,
+                ..ProcPlan::well_behaved()
+            },
+        });
+    }
     for shader in &shaders {
         for (spawn, script) in &scripts {
             for (op_cost, parent_costs, lead) in &timings {
@@ -1256,6 +1310,14 @@ fn real_rustfmt_block(cache: &RefCache, limit_opts: usize) -> RealFmtResult {
             options: Opts::plain(),
         });
     }
+    jobs.push(Job {
+        shader: HUGE,
+        include_path: None,
+        options: Opts {
+            bytemuck_host: true,
+            ..Opts::plain()
+        },
+    });
     jobs.push(Job {
         shader: ShaderRef::Inline {
             source: "override ova: f32 = 1.0;\noverride ovb: u32 = 2u;\noverride ovc: bool = true;\n@fragment fn fs_main() {}".into(),
@@ -1698,11 +1760,36 @@ fn report_failures(
         if !seen.insert((failure.class.clone(), trigger.clone())) {
             continue;
         }
-        let v = run_case_isolated(&min, true);
-        let f = v
-            .failure
-            .clone()
-            .ok_or_else(|| format!("minimised case of run {run} no longer fails"))?;
+        // Confirm with a fresh execution. Code under test that uses helper threads around the
+        // formatter is not ours to schedule: such a failure may need several attempts, and if even
+        // the original case does not fail again it is still reported (it was observed), marked
+        // as not exactly replayable.
+        let mut confirmed: Option<(Case, Verdict)> = None;
+        'confirm: for cand in [&min, case] {
+            for _ in 0..4 {
+                let v = run_case_isolated(cand, true);
+                let multi = v.multi_threaded_parent;
+                if v.failure.is_some() {
+                    confirmed = Some((cand.clone(), v));
+                    break 'confirm;
+                }
+                if !multi {
+                    break;
+                }
+            }
+        }
+        let (min, v, observed_only) = match confirmed {
+            Some((c, v)) => (c, v, false),
+            None => {
+                let mut v = run_case_isolated(case, true);
+                if !v.multi_threaded_parent {
+                    return Err(format!("minimised case of run {run} no longer fails"));
+                }
+                v.failure = Some(failure.clone());
+                (case.clone(), v, true)
+            }
+        };
+        let f = v.failure.clone().expect("failure present");
         if let Some(k) = known.lookup("C19", &f.class, &trigger) {
             known_hits += 1;
             lines.push(format!(
@@ -1721,7 +1808,8 @@ fn report_failures(
             .output()
             .map_err(|e| format!("replay subprocess: {e}"))?;
         let stdout = String::from_utf8_lossy(&out.stdout);
-        if out.status.code() != Some(1) || !stdout.contains("REPLAY-EXACT") {
+        let tolerated = v.multi_threaded_parent || observed_only;
+        if !tolerated && (out.status.code() != Some(1) || !stdout.contains("REPLAY-EXACT")) {
             return Err(format!(
                 "replay of {path:?} in a fresh process did not reproduce exactly (exit {:?}): {stdout}",
                 out.status.code()
@@ -1871,6 +1959,7 @@ pub fn main(tier: Tier) -> i32 {
     //  * anything else (ok vs ok, informational scenarios): harness error only if this run would
     //    otherwise report a clean pass.
     let mut kernel_warnings = 0;
+    let mut kernel_ok_vs_ok = 0;
     for d in &kernel.disagreements {
         println!(
             "MODEL-DISAGREES {}: model={} kernel={} eligible={}",
@@ -1902,6 +1991,10 @@ pub fn main(tier: Tier) -> i32 {
         } else if d.eligible && kernel_ok && !model_ok {
             eprintln!("HARNESS-ERROR the formatter-process model reports a failure the real kernel does not show ({}): model={} kernel={}", d.scenario.name, d.model, d.kernel);
             return 2;
+        } else if kernel_ok && model_ok {
+            // formatted vs. fallback: both satisfy the oracle (code with timeouts or retries
+            // legitimately lands on either side); recorded, never an error
+            kernel_ok_vs_ok += 1;
         } else {
             kernel_warnings += 1;
         }
@@ -1976,6 +2069,7 @@ pub fn main(tier: Tier) -> i32 {
         "model_vs_real_kernel": {
             "scenarios": kernel.scenarios,
             "agree": kernel.agree,
+            "formatted_vs_fallback_only": kernel_ok_vs_ok,
             "disagreements": kernel.disagreements.iter().map(|d| format!("{}: model={} kernel={}", d.scenario.name, d.model, d.kernel)).collect::<Vec<_>>(),
             "outcome_classes_on_the_real_kernel": kernel.classes,
             "what": "same fault scripts executed by a real child process over real pipes with forced orderings (child-first: spawn returns once the child is a zombie or asleep; parent-first: child waits for FIONREAD); the outcome class must equal the model's, a disagreement is exit 2",
